@@ -67,9 +67,17 @@ class Lookup(Contract_):
         if k not in cells(ex).d:
             raise PyRaise(ex.make_exc(KeyError))
         v = cells(ex).d[k]
-        if not isinstance(fmt, int):
-            raise OutOfReach("lookup with a format")
         t = lift_bytes(v)
+        if isinstance(fmt, str):
+            # bpf._lookup_elem with a format: a buffer of calcsize(fmt) bytes,
+            # then unpack(fmt, buffer)[0]
+            import struct
+            n = struct.calcsize(fmt)
+            ex.check(f"{ex.target_short}.lookup[value buffer covers the cell]", ops.b_len(t) <= n,
+                     "the buffer handed to the kernel is as large as the stored value")
+            return lib.do_unpack(ex, fmt, Sym(t, BYTES), 0, exact=True)[0]
+        if not isinstance(fmt, int):
+            raise OutOfReach("lookup with a symbolic format")
         ex.check(f"{ex.target_short}.lookup[value buffer covers the cell]", ops.b_len(t) <= fmt,
                  "the buffer handed to the kernel is as large as the stored value")
         return MutBytes(t)
@@ -123,6 +131,13 @@ def load_then_get(prog):
     return prog.a, prog.b
 
 
+def program_wrote_then_get(prog, name, cell):
+    """the PROGRAM stored `cell` (any 8 bytes: its arithmetic is 64 bits wide
+    and runs over the edge of a narrow format); Python reads the variable"""
+    prog.g_cells[getattr(Prog, name).count] = cell
+    return getattr(prog, name)
+
+
 def lemmas():
     setup = lambda ex, inputs: inputs.vars["prog"].fields.__setitem__("g_cells", PDict())
     inl = {"inline": {"ebpfcat.hashmap:HashGlobalVarDesc.__get__", "ebpfcat.hashmap:HashGlobalVarDesc.__set__",
@@ -141,6 +156,19 @@ def lemmas():
         Contract(load_then_get, name="HashMap.load applies the declared defaults", setup=setup,
                  params=dict(prog=PROG),
                  ensures={"defaults_after_loading": "result == (5, -7)"}, modifies=None, options=inl),
+        # what the program reads from a narrow variable are the low bytes of
+        # the cell in the variable's own format: Python reads the same value,
+        # whatever the upper bytes hold
+        Contract(program_wrote_then_get, name="hash variable a ('I'): Python reads what the program reads", setup=setup,
+                 params=dict(prog=PROG, name=T.Const("a"), cell=T.Bytes),
+                 requires={"a_64_bit_cell": "len(cell) == 8"},
+                 ensures={"the_low_bytes_in_the_variable_s_format": "result == le_value(cell, 0, 'I')"},
+                 modifies=None, options=inl),
+        Contract(program_wrote_then_get, name="hash variable c ('i'): Python reads what the program reads", setup=setup,
+                 params=dict(prog=PROG, name=T.Const("c"), cell=T.Bytes),
+                 requires={"a_64_bit_cell": "len(cell) == 8"},
+                 ensures={"the_low_bytes_in_the_variable_s_format": "result == le_value(cell, 0, 'i')"},
+                 modifies=None, options=inl),
         # a 64-bit cell: the program copies whole cells between variables of
         # different widths, so a narrow variable's cell holds the value
         # extended to 64 bits (sign extended for a signed format)
